@@ -107,6 +107,11 @@ func main() {
 		}
 	}
 	if pool != nil {
+		gm, err := model.Start(*modelPath)
+		if err == nil {
+			genModel = gm
+			defer gm.Close()
+		}
 		runCases(pool, workers, func(emit func(Case)) { pd.streams(ctx, emit) }, st)
 		pool.Close()
 	} else {
